@@ -47,7 +47,9 @@ static void op_EllswiftXdh(const jv *in, jout *out) {
     jv_need(in, "ella", ea, 64); jv_need(in, "ellb", eb, 64); jv_need(in, "key", key, 32);
     memset(data, 0, 64); if (h == 1) jv_need(in, "data", data, 64);
     memset(res, 0xAA, 32);
-    ret = vh_es_xdh(res, ea, eb, key, (int)party, h, data, &cb);
+    /* "alias": 1 = the shared secret overwrites the caller's secret-key buffer */
+    if (jv_int(in, "alias", 0)) { ret = vh_es_xdh(key, ea, eb, key, (int)party, h, data, &cb); memcpy(res, key, 32); }
+    else ret = vh_es_xdh(res, ea, eb, key, (int)party, h, data, &cb);
     jo_int(out, "ret", ret);
     if (ret) jo_bytes(out, "out", res, 32);
     if (h == 2) { jo_int(out, "cba", cb.saw_a); jo_int(out, "cbb", cb.saw_b); jo_int(out, "cbn", cb.calls); }
